@@ -1,39 +1,87 @@
-import Secp.Proofs.LimbLawful
+import Secp.Proofs.WideReduce
 /-!
 # C12 — the base-field layer computes exact, canonical arithmetic in F_p
-(first instalment: the limb-level contracts of the generated Fiat functions)
+
+Model of the code: `Hand.limbOps` — the methods of `field.Element` on Montgomery limbs, each a thin wrapper (tied by
+the family `F.*`) of a function *generated* from `internal/field`: the Fiat-Crypto `Mul Square Add Sub Opp
+FromMontgomery ToMontgomery Nonzero Selectznz SetOne`, the bit tricks, `Reduce`, the two addition chains, `SqrtRatio`.
+Every generated Fiat function is shown *definitionally equal* (`rfl`) to a structured word-by-word Montgomery reference,
+and the reference is proved correct for every valid modulus; a changed constant, swapped operand or dropped carry in the
+3.9 kLoC of generated Go breaks the `rfl`.
+
+`limbOk a` = limbs below 2^64 and value below p (canonical). `limbVal a ∈ ZMod p` = the field element denoted
+(`eval · R⁻¹`). p is proved prime (checked Pratt certificates), so `ZMod p` is the field F_p.
 -/
 namespace C12
+open Spec
 
-/-- `Mul`: canonical output, Montgomery product -/
-theorem mul_correct (x y : L4) (hx : x.ok) (hy : y.ok) (hY : y.eval < Pnat) :
-    (FiatField.mul x y).ok ∧ (FiatField.mul x y).eval < Pnat ∧
-    ((FiatField.mul x y).eval * W^4) % Pnat = (x.eval * y.eval) % Pnat := fieldMul_correct x y hx hy hY
+/-- add / subtract / multiply / square / negate: exact in F_p, results canonical -/
+theorem add_correct {a b : L4} (ha : limbOk a) (hb : limbOk b) :
+    limbOk (FiatField.add a b) ∧ limbVal (FiatField.add a b) = limbVal a + limbVal b := limb_add ha hb
+theorem sub_correct {a b : L4} (ha : limbOk a) (hb : limbOk b) :
+    limbOk (FiatField.sub a b) ∧ limbVal (FiatField.sub a b) = limbVal a - limbVal b := limb_sub ha hb
+theorem mul_correct {a b : L4} (ha : limbOk a) (hb : limbOk b) :
+    limbOk (FiatField.mul a b) ∧ limbVal (FiatField.mul a b) = limbVal a * limbVal b := limb_mul ha hb
+theorem square_correct {a : L4} (ha : limbOk a) :
+    limbOk (FiatField.square a) ∧ limbVal (FiatField.square a) = limbVal a * limbVal a := limb_square ha
+theorem neg_correct {a : L4} (ha : limbOk a) :
+    limbOk (FiatField.opp a) ∧ limbVal (FiatField.opp a) = - limbVal a := limb_neg ha
 
-theorem square_correct (x : L4) (hx : x.ok) (hX : x.eval < Pnat) :
-    (FiatField.square x).ok ∧ (FiatField.square x).eval < Pnat ∧
-    ((FiatField.square x).eval * W^4) % Pnat = (x.eval * x.eval) % Pnat := fieldSquare_correct x hx hX
+/-- invert: `x⁻¹`, and `0 ↦ 0` (270-step addition chain `x^(p-2)`, exponent evaluated in the kernel, Fermat) -/
+theorem invert_correct {a : L4} (ha : limbOk a) :
+    limbOk (FieldChains.invert FL a) ∧ limbVal (FieldChains.invert FL a) = (limbVal a)⁻¹ := limb_invert ha
 
-theorem add_correct (x y : L4) (hx : x.ok) (hy : y.ok) (hX : x.eval < Pnat) (hY : y.eval < Pnat) :
-    (FiatField.add x y).ok ∧ (FiatField.add x y).eval = (x.eval + y.eval) % Pnat := fieldAdd_correct x y hx hy hX hY
+/-- square-root-of-ratio for `v ≠ 0`: flag 1 and a root of `u/v` when `u/v` is a square, flag 0 and a root of
+`Z·u/v` (`Z = -11`) otherwise; result canonical -/
+theorem sqrtRatio_correct (u v : L4) (hu : limbOk u) (hv : limbOk v) (hv0 : limbVal v ≠ 0) :
+    limbOk (FieldChains.sqrtRatio FL u v).1 ∧
+    ((IsSquare (limbVal u / limbVal v) ∧ (FieldChains.sqrtRatio FL u v).2 = 1 ∧
+        (limbVal (FieldChains.sqrtRatio FL u v).1) ^ 2 = limbVal u / limbVal v) ∨
+     (¬ IsSquare (limbVal u / limbVal v) ∧ (FieldChains.sqrtRatio FL u v).2 = 0 ∧
+        (limbVal (FieldChains.sqrtRatio FL u v).1) ^ 2 = -11 * (limbVal u / limbVal v))) :=
+  sqrtRatio_spec limbLawful limb_sqrtConsts u v hu hv hv0
 
-theorem sub_correct (x y : L4) (hx : x.ok) (hy : y.ok) (hX : x.eval < Pnat) (hY : y.eval < Pnat) :
-    (FiatField.sub x y).ok ∧ (FiatField.sub x y).eval = (x.eval + Pnat - y.eval) % Pnat := fieldSub_correct x y hx hy hX hY
+/-- sign: the parity of the canonical value -/
+theorem sgn0_correct {a : L4} (ha : limbOk a) : Hand.limbOps.sgn0 a = (limbVal a).val % 2 := limb_sgn0 ha.1
 
-theorem neg_correct (x : L4) (hx : x.ok) (hX : x.eval < Pnat) :
-    (FiatField.opp x).ok ∧ (FiatField.opp x).eval = (Pnat - x.eval) % Pnat := fieldOpp_correct x hx hX
-
-/-- zero / equality tests and conditional move on a 0/1 condition (bit tricks proved on `Nat` words below 2^64) -/
-theorem equals_correct (e u : L4) (he : e.ok) (hu : u.ok) : FiatField.equals e u = if e = u then 1 else 0 :=
-  equals_spec e u he hu
-theorem isZero_correct (e : L4) (he : e.ok) :
-    FiatField.isZero (FiatField.nonzero e) = if e = ⟨0, 0, 0, 0⟩ then 1 else 0 := isZeroL4_spec e he
+/-- zero test, equality test (canonical representations are unique), conditional move on a 0/1 condition -/
+theorem isZero_correct {a : L4} (ha : limbOk a) : (Hand.limbOps.isZero a = 1 ↔ limbVal a = 0) ∧
+    (Hand.limbOps.isZero a = 0 ∨ Hand.limbOps.isZero a = 1) :=
+  ⟨limbLawful.isZero_eq_one_iff ha, limbLawful.isZero_bit ha⟩
+theorem equals_correct {a b : L4} (ha : limbOk a) (hb : limbOk b) :
+    (Hand.limbOps.equals a b = 1 ↔ limbVal a = limbVal b) ∧
+    (Hand.limbOps.equals a b = 0 ∨ Hand.limbOps.equals a b = 1) :=
+  ⟨limbLawful.equals_eq_one_iff ha hb, limbLawful.equals_bit ha hb⟩
+theorem canonical_unique {a b : L4} (ha : limbOk a) (hb : limbOk b) (h : limbVal a = limbVal b) : a = b :=
+  limbVal_inj ha hb h
 theorem cmove_correct (c : Nat) (hc : c ≤ 1) (u v : L4) (hu : u.ok) (hv : v.ok) :
     FiatField.selectznz c u v = if c = 0 then u else v := selectznz_spec_p c hc u v hu hv
 
-/-- the limb implementation (`field.Element` methods on Montgomery limbs) is a lawful implementation of `ZMod p`:
-canonical representations are unique, and add/sub/mul/square/neg/zero-test/equality/cmove commute with the
-abstraction `limbs ↦ eval · R⁻¹ (mod p)` and preserve canonicity -/
-noncomputable def lawful : Lawful Hand.limbOps (ZMod Spec.P) := limbLawful
+/-- the 32-byte parser reports precisely whether the input was `< p` and stores the input mod p -/
+theorem fromBytesWithReduce_correct (b : Bytes) (hlen : b.length = 32) (hb : IsBytes b) :
+    limbOk (Hand.Fp.fromBytesWithReduce b).1 ∧ limbVal (Hand.Fp.fromBytesWithReduce b).1 = ((os2ip b : Nat) : ZMod P) ∧
+    (Hand.Fp.fromBytesWithReduce b).2 = (if os2ip b < P then 1 else 0) := fromBytesWithReduce_spec b hlen hb
+
+/-- the serialiser emits the canonical value, big-endian on 32 bytes -/
+theorem bytes_correct {a : L4} (ha : a.ok) : Hand.Fp.bytes a = i2osp (limbVal a).val 32 := limb_bytes ha
+
+/-- the 48-byte wide reduction returns the input integer mod p -/
+theorem hashToField_correct (input : Bytes) (hb : IsBytes input) (hl : input.length = 48) :
+    limbOk (Hand.Fp.hashToFieldElement input) ∧ limbVal (Hand.Fp.hashToFieldElement input) = ((os2ip input : Nat) : ZMod P) :=
+  fp_hashToField input hb hl
+
+/-- Montgomery conversions -/
+theorem fromMontgomery_correct {a : L4} (ha : a.ok) :
+    (FiatField.fromMontgomery a).ok ∧ (FiatField.fromMontgomery a).eval = (limbVal a).val := limb_fromMont ha
+theorem toMontgomery_correct {x : L4} (hx : x.ok) :
+    limbOk (FiatField.toMontgomery x) ∧ limbVal (FiatField.toMontgomery x) = (x.eval : ZMod P) := limb_toMont hx
+
+/-- summary: the limb implementation is a lawful implementation of the field `ZMod p` -/
+noncomputable def lawful : Lawful Hand.limbOps (ZMod P) := limbLawful
+
+/-- `p` is prime (Pratt certificate, every step evaluated by the kernel) -/
+theorem p_prime : Nat.Prime P := Fact.out
+
+example : limbOk FiatField.setOne ∧ limbVal FiatField.setOne = 1 := ⟨limbLawful.ok_one, limbLawful.val_one⟩
 
 end C12
